@@ -238,6 +238,17 @@ func reifyMap(opts *options, to reflect.Value, from *Config, validators []valida
 		}
 	}
 
+	// entries of a pre-filled map that the configuration does not mention
+	// stay as they are; like every other default they must validate
+	for _, key := range to.MapKeys() {
+		if _, mentioned := fields[key.String()]; mentioned {
+			continue
+		}
+		if err := tryRecursiveValidate(to.MapIndex(key), opts, nil); err != nil {
+			return raiseValidation(from.ctx, from.metadata, key.String(), err)
+		}
+	}
+
 	if err := runValidators(to.Interface(), validators); err != nil {
 		return raiseValidation(from.ctx, from.metadata, "", err)
 	}
